@@ -306,7 +306,7 @@ def rand_value(rng, depth=0):
     if t == 'bool':
         return dict(t='bool', v=rng.random() < .5)
     if t == 'int':
-        return dict(t='int', v=rng.pick([0, -1, 7, 10 ** 12, -3]))
+        return dict(t='int', v=rng.pick([0, -1, 7, 10 ** 12, -3, 2 ** 53 + 1, -(2 ** 63), 2 ** 64 - 1]))
     if t == 'float':
         return dict(t='float', f=rng.pick([0.5, -2.25, 1e-9, 3.0, 1e300]))
     if t == 'str':
@@ -352,7 +352,7 @@ def gen(tier, rng):
                     continue
                 t = rng.randrange(3)
                 if t == 0:
-                    r.append([f, {'int': rng.pick([0, 3, -7, 123456])}])
+                    r.append([f, {'int': rng.pick([0, 3, -7, 123456, 2 ** 53 + 1, -(2 ** 62) - 1])}])
                 elif t == 1:
                     r.append([f, {'float': rng.pick([0.5, 1.23456789, -2.00004, 1e-7, 123.0])}])
                 else:
@@ -364,7 +364,7 @@ def gen(tier, rng):
     for _ in range(300 if q else 5000):
         ids = rng.sample(range(0, 500), rng.randrange(0, 6))
         kind = rng.randrange(3)
-        data = [[i, (rng.pick([1, -4, 0]) if kind == 0 else (rng.pick([0.25, 1.5e-3, 7.0]) if kind == 1 else rng.pick(['good', 'mua', 'a,b', 'x\ty', 'q"uote'])))] for i in ids]
+        data = [[i, (rng.pick([1, -4, 0, 9007199254740993]) if kind == 0 else (rng.pick([0.25, 1.5e-3, 7.0]) if kind == 1 else rng.pick(['good', 'mua', 'a,b', 'x\ty', 'q"uote'])))] for i in ids]
         yield dict(p=PID, op='simple', field=rng.pick(['group', 'KSLabel', 'Amplitude']), data=data, ext=rng.pick(['tsv', 'csv']))
     for _ in range(200 if q else 3000):
         keys = rng.sample(['dat_path', 'n_channels_dat', 'dtype', 'offset', 'sample_rate', 'hp_filtered', 'extra'], rng.randrange(1, 6))
